@@ -159,7 +159,12 @@ def strLoop : Nat → Nat → St → St
       if r.1 = 34 then saveFrom start r.2
       else
         let st1 := if r.2.eof || r.1 = 10 then syntaxError r.2 else r.2
-        let st2 := if r.1 = 92 then (nextByte false st1).2 else st1
+        let st2 :=
+          if r.1 = 92 then
+            -- `if r.nextByte(false) == '\n' { r.syntaxError() }`: the escaped byte cannot be a newline
+            let e := nextByte false st1
+            if escapedNewlineIsError && e.1 = 10 then syntaxError e.2 else e.2
+          else st1
         strLoop n start st2
     else st
 
